@@ -15,7 +15,7 @@ import (
 	"time"
 )
 
-const c02Rule = "byte strings from three streams: (a) structure-aware mutations of valid encodings of generated profiles (19 named strategies: length-prefix edits, id 0 / duplicate ids, dangling references, out-of-table string indices, function removed behind a line, duplicated fields, concatenations, value-count edits, wire-type edits, string-table edits, over-long varints, bit flips, truncations, …), (b) random wire-format field soups, (c) legacy inputs: mutated repository test inputs (text: value-level edits of the numeric columns of records and headers — one column 0 / 1 / negative / huge / overflowing while its neighbours stay ordinary, all-but-one zero, all zero — edits of the trailing memory map (mapping name patterns such as empty / only \"(deleted)\" / \"[\" / bracketed / .so variants / very long / non-UTF-8, permissions, offsets, adjacent, overlapping, inverted and extreme ranges, attribute and log-prefix lines, /proc/maps and brief forms), plus line/number/hex edits; binary CPU: word-level edits of nstk/count/header/end marker) and legacy documents of every flavour (heap, heap_v2, heapz_v2, growth, fragmentation, contentionz, mutex, threadz, count, java heapz, java contentionz, binary CPU) printed with every numeric column drawn from the same per-record value patterns and a generated trailing memory map of the same dimensions; each also wrapped in valid and corrupt gzip. Non-trivial = reaches a mechanism the property anchors: the input is accepted; or the protobuf decoder got far enough to reject it at a bounds/type/string-index/concatenation check; or it parsed and the validity gate rejected it; or a legacy parser recognised the format (accepted or failed inside it). Distinct by input bytes."
+const c02Rule = "byte strings from three streams: (a) structure-aware mutations of valid encodings of generated profiles (19 named strategies: length-prefix edits, id 0 / duplicate ids, dangling references, out-of-table string indices, function removed behind a line, duplicated fields, concatenations, value-count edits, wire-type edits, string-table edits, over-long varints, bit flips, truncations, …), (b) random wire-format field soups, (c) legacy inputs: mutated repository test inputs (text: value-level edits of the numeric columns of records and headers — one column 0 / 1 / negative / huge / overflowing while its neighbours stay ordinary, all-but-one zero, all zero — edits of the trailing memory map (mapping name patterns such as empty / only \"(deleted)\" / \"[\" / bracketed / .so variants / very long / non-UTF-8, permissions, offsets, adjacent, overlapping, inverted and extreme ranges, attribute and log-prefix lines, /proc/maps and brief forms), plus line/number/hex edits; binary CPU: word-level edits of nstk/count/header/end marker) and legacy documents of every flavour (heap, heap_v2, heapz_v2, growth, fragmentation, contentionz, mutex, threadz, count, java heapz, java contentionz, binary CPU) printed with every numeric column drawn from the same per-record value patterns and a generated trailing memory map of the same dimensions; (h) a header-field grid of valid symbolized profiles (drop_frames / keep_frames each empty, valid, invalid, match-all × default_sample_type empty/known/unknown × doc_url × period_type × comments), each also through the real binary; each of (a)-(c) also wrapped in valid and corrupt gzip. Every accepted profile goes through Write/Copy/Compact/String, the driver's post-parse pipeline (RemoveUninteresting, CheckValid, NumLabelUnits, SampleIndexByName, nil and match-all filters, Scale/ScaleN, Normalize+Scale(-1)+Merge with itself, label edits, Aggregate at 8 granularities) and 11 in-process reports. Non-trivial = reaches a mechanism the property anchors: the input is accepted; or the protobuf decoder got far enough to reject it at a bounds/type/string-index/concatenation check; or it parsed and the validity gate rejected it; or a legacy parser recognised the format (accepted or failed inside it). Distinct by input bytes."
 
 // The generated run and every replay execute in a CHILD process with a capped address space:
 // an unrecoverable runtime error of the code under test (stack overflow, out of memory,
@@ -374,6 +374,36 @@ func runC02(c *Ctx) {
 				c.Res.Hit("c-text-mutation:" + how)
 				maybeGz(m, "c:gen-text-mutated")
 			}
+		}
+	}
+	// (h) header-field grid: valid symbolized profiles with every combination of drop_frames /
+	// keep_frames (empty, valid, invalid, match-all) × default_sample_type (empty, known, unknown)
+	// × doc_url × period_type × comments; in-process pipeline and reports for each, and the real
+	// binary for every drop×keep combination
+	nh := 64
+	if scale > 1 {
+		nh = 2 * c02HdrCombos
+	}
+	off := r.Intn(c02HdrCombos)
+	cliSeen := map[int]bool{}
+	for i := 0; i < nh && !aborted; i++ {
+		// stride 37 is coprime to 576: consecutive cases differ in every coordinate
+		k := (off + i*37) % c02HdrCombos
+		p, desc := c02HeaderProfile(r, k)
+		raw, pn := c02WriteU(p)
+		if pn != "" {
+			continue
+		}
+		c.Res.Hit("h-dropkeep:" + fmt.Sprint(k%16))
+		before := len(c.Res.Findings)
+		one(raw, "h:header-grid")
+		if len(c.Res.Findings) > before {
+			c.Res.Notes = append(c.Res.Notes, "header-grid case: "+desc)
+		}
+		if !cliSeen[k%16] || scale > 1 && i%8 == 0 {
+			cliSeen[k%16] = true
+			c.Res.Hit("cli:inputs")
+			c02CLI(c, raw, "h:header-grid", []string{"-top", c02CLICommands[r.Intn(len(c02CLICommands))]})
 		}
 	}
 	// a few fixed degenerate inputs
